@@ -22,3 +22,10 @@ impl Bv {
     pub open spec fn alen(&self) -> usize { self.slen() }
     pub open spec fn abit(&self, i: int) -> bool { self.sbit(i) }
 }
+impl Bv {
+    pub open spec fn is_sig(&self, r: int) -> bool {
+        &&& 0 <= r <= self.slen()
+        &&& forall|i: int| r <= i < self.slen() ==> !self.sbit(i)
+        &&& r > 0 ==> self.sbit(r - 1)
+    }
+}
